@@ -41,6 +41,7 @@ type RecoveryReplay struct {
 const c03Rule = "rapid-generated sequential workloads (C01 operations, Flush, iteration, primary and index GC cycles with and without unflushed changes and call budgets, Close/reopen through snapshot and rescan) run with a handler on the named points that captures the directory before every file-system step; " +
 	"crash states = every captured image + for every single write between two images every byte prefix of the written region (append, create, in-place rewrite = truncate+write, positional overwrite); steps that change more than one thing between two points are counted as hook_gaps. Quick: a few drawn states per workload; thorough: every state of every workload (exhaustive per workload up to a cap), plus states captured inside the recovery open itself (second level); after the post-recovery history the recovered store is flushed and its files copied once more (a second crash after a completed flush), and the copy must hold exactly the model. " +
 	"oracle = durability model: OpenStore on the image must succeed; every key reads without error a value it had between the last completed Flush/Close and the operation in progress at the crash (every instant at which the same bytes were on disk must be satisfied), never bytes never written for it; Has/GetSize agree; then a generated suffix (puts, removes, flushes, GC cycles, reopen) must behave exactly like the map model seeded with what was read. " +
+	suspRuleText + " (fsck clauses are judged by C07). " +
 	"non-trivial = a state strictly inside an operation (not between operations) of a workload that superseded a flushed key; distinct = distinct (image hash, expectations)"
 
 func genCrashCase(t *rapid.T) CrashCase {
@@ -391,6 +392,20 @@ func TestC03(t *testing.T) {
 	defer ev.Write()
 	ev.Assumptions = []string{"process-crash model: completed system calls are durable; power loss and reordering of unsynced writes are out of scope",
 		"positional overwrites of at most 4 bytes (GC marks) are treated as atomic"}
+	isFsck := func(v *Violation) bool { return strings.HasPrefix(v.Signature, "fsck|") }
+	if envReplay != "" && bytes.Contains(readReplayRaw(envReplay).Case, []byte(`"fg"`)) {
+		var sc SuspCase
+		readReplay(envReplay, &sc)
+		for i := 0; i < 10; i++ {
+			_, v := runSusp(sc, false)
+			ev.Record(sc, true, "suspended-call-crash")
+			if v != nil && !isFsck(v) {
+				ev.Report(v, sc)
+				t.Fatalf("replay: %v", v)
+			}
+		}
+		return
+	}
 	if envReplay != "" {
 		var rp RecoveryReplay
 		readReplay(envReplay, &rp)
@@ -552,6 +567,11 @@ func TestC03(t *testing.T) {
 			names = append(names, g)
 		}
 		ev.Extra["hook_gap_sites"] = strings.Join(names, "; ")
+	}
+	// A crash while a call is suspended between its sub-steps and a flush of
+	// another task has completed (suspended.go); fsck clauses are C07's.
+	if !t.Failed() {
+		runSuspCampaign(t, ev, budget(1600, 4000), false, func(v *Violation) bool { return !isFsck(v) })
 	}
 	ev.finish(t)
 }
